@@ -2009,6 +2009,22 @@ def check_C11(ctx):
         mp[line] = 'regression'
     for fen, kind in mp.items():
         ctx.count(kind)
+        # the forced-mate predicates of T11.2 / T11.3 (MatesIn / MatedIn over the model's generate / make, decided by
+        # matesInB / matedInB) against the exhaustive mate search of the rules specification
+        n = max_mate_n(fen)
+        fm = rows(ctx.model.ask(f'oracle forced {fen} ; {n}'))
+        om = rows(ctx.model.ask(f'oracle mate {fen} ; {n}'))
+        ctx.count('forced-mate-predicate-comparisons')
+        if 'matesIn' not in fm or 'mateIn' not in om:
+            ctx.oracle_fail('forced-mate-predicate-no-answer', f'oracle forced {fen} ; {n}', {'model': fm, 'rules': om})
+        else:
+            mated = fm.get('mated') == '1'
+            ok = fm['matesIn'] == om['mateIn'] and mated == (om.get('terminal') == 'mate')
+            if not mated:
+                ok = ok and fm['matedIn'] == om['matedWithin']
+            if '1' in fm['matesIn'] or '1' in fm['matedIn']: ctx.count('forced-mate-predicate-true')
+            if not ok:
+                ctx.oracle_fail('forced-mate-predicate-differs-from-rules', f'oracle forced {fen} ; {n}', {'model': fm, 'rules': om})
         for d in ([3, 5] if ctx.quick else [3, 4, 5, 6]):
             cmd = f'search fen {fen} ; depth={d}'
             so = run_search(ctx, 'fen ' + fen, f'depth={d}')
